@@ -359,6 +359,22 @@ def transition(
         Tuple[PureSnapshot, List[ActionDefinition]]: The resulting snapshot
         and the actions that would have run.
     """
+    # 🏁 A machine that has completed (or failed) ignores further events, as
+    #    the interpreters do. Forcing the probe back to "running" revived a
+    #    finished machine: it reported `active` again and lost its output.
+    if snapshot.status != "active":
+        return (
+            PureSnapshot(
+                state_ids=set(snapshot.state_ids),
+                configuration=set(snapshot.configuration),
+                context=copy.deepcopy(snapshot.context),
+                status=snapshot.status,
+                output=snapshot.output,
+                history=copy.deepcopy(snapshot.history),
+            ),
+            [],
+        )
+
     probe, recorded = _build_probe(machine, snapshot, None)
     probe.status = "running"
 
